@@ -139,6 +139,7 @@ CHECKS["C17"] = dict(
          "write, (c) stream longer than the first read or control frames present, (d) >=1 message larger than the client's write buffer; distinct = distinct case value.",
     legs=[dict(name="sniffer", test="^TestSniffer$", quick=dict(n=6000, procs=2, timeout=300), thorough=dict(n=3000000, procs=8, timeout=3000)),
           dict(name="writes", test="^TestWrites$", quick=dict(n=1500, procs=4, timeout=400), thorough=dict(n=60000, procs=14, timeout=2400)),
+          dict(name="write-during-timer-flush", test="^TestWriteDuringTimerFlush$", quick=dict(n=6, procs=3, batch=2, timeout=900), thorough=dict(n=96, procs=8, batch=12, timeout=3000)),
           dict(name="concurrent-writes", test="^TestConcurrentWrites$", quick=dict(n=300, procs=2, timeout=300), thorough=dict(n=30000, procs=6, timeout=2400)),
           dict(name="real-listener", test="^TestRealListener$", quick=dict(n=600, procs=2, timeout=400), thorough=dict(n=12000, procs=8, timeout=2400)),
           dict(name="websocket", test="^TestWebsocket$", quick=dict(n=4000, procs=2, timeout=300), thorough=dict(n=2000000, procs=8, timeout=3000)),
